@@ -7,6 +7,7 @@ import (
 	"io"
 	"log/slog"
 	"net"
+	"reflect"
 	"time"
 
 	"github.com/anthdm/hollywood/actor"
@@ -65,11 +66,17 @@ func (s *streamWriter) Invoke(msgs []actor.Envelope) {
 
 	for i := 0; i < len(msgs); i++ {
 		var (
-			stream   = msgs[i].Msg.(*streamDeliver)
 			typeID   int32
 			senderID int32
 			targetID int32
 		)
+		// The writer is a registered process: anything can be sent to its PID,
+		// also by a remote peer. Only the router's streamDeliver is for us.
+		stream, ok := msgs[i].Msg.(*streamDeliver)
+		if !ok {
+			slog.Warn("stream writer got an unexpected message", "t", reflect.TypeOf(msgs[i].Msg))
+			continue
+		}
 		// A message that cannot be serialized is dropped on its own; it must
 		// not leave a hole in the batch or entries in the lookup tables.
 		b, err := s.serializer.Serialize(stream.msg)
